@@ -8,7 +8,7 @@ import os
 import time
 from dataclasses import asdict, dataclass, field
 
-from . import AnalysisError
+from . import AnalysisError, ShapeMismatch
 from .astutil import norm_stmt
 from .effects import Effects
 from .model import FunctionInfo, Program
@@ -82,7 +82,21 @@ class Ctx:
         n = sum(1 for o in self.obs if o.rule == rule)
         self.floors.append((rule, n, minimum))
         if n < minimum:
+            if any(not o.ok and o.rule.split("-")[0] == rule.split("-")[0] for o in self.obs):
+                # a violation is already being reported; the missing instances are its consequence
+                self.note(f"rule {rule}: {n} instance(s) < {minimum} (a failing obligation explains the shortfall)")
+                return
             raise AnalysisError(f"rule {rule}: only {n} instance(s) found, {minimum} confirmed by hand — anchor vanished?")
+
+    def guarded(self, rule_fn) -> None:
+        """Run one rule function; a construct that vanished inside an existing anchor becomes a failing obligation."""
+        try:
+            rule_fn(self)
+        except ShapeMismatch as exc:
+            msg = str(exc)
+            rid = msg.split(":")[0] if msg[:1] == "C" and ":" in msg[:8] else f"{self.prop}-0"
+            self.obs.append(Ob(rule=rid, family="shape", key=f"{rule_fn.__module__.split('.')[-1]}.{rule_fn.__name__}::{msg[:160]}", loc="-", ok=False,
+                               msg="the construct this rule must examine is no longer present in its anchor, so the clause cannot be established: " + msg))
 
     def note(self, txt: str) -> None:
         self.notes.append(txt)
